@@ -132,45 +132,47 @@ AGG = {
 
 
 def clause_b(repo, chk):
-    chk.rule("B-agg", "each CombineFCN aggregate loops over all of self.fcns, calls the same-named method of each part, and returns the sum of every component")
-    cls = repo.cls("tf_pwa/model/model.py::CombineFCN")
+    chk.rule("B-agg", "each CombineFCN aggregate, interpreted on three abstract parts, returns component by component the sum over all parts of the same-named method of the parts; value entry points add the constraint term")
+    # interpretation: CombineFCN with three abstract parts whose methods return distinct symbols per (method, part,
+    # component); the aggregate must return, component by component, the sum over all parts of the same-named method
+    import sympy as sp
+
+    from ..sym import SelfObj, Translator, Unmodelled
+
+    M = "tf_pwa/model/model.py::"
+    fcn, cls = repo.cls(M + "FCN"), repo.cls(M + "CombineFCN")
+    PUBLIC = {"__call__": 1, "grad": 1, "nll_grad": 2, "nll_grad_hessian": 3, "grad_hessp": 2}
+
+    def mk(mname, nc):
+        def h(tr, args, kwargs, n):
+            k = args[0].attrs["_k"]
+            vals = tuple(sp.Symbol("%s_part%d_c%d" % (mname, k, c)) for c in range(nc))
+            return vals if nc > 1 else vals[0]
+        return h
+
+    hooks = {"allow_attr_store": True}
+    for mname, nc in list(AGG.items()) + list(PUBLIC.items()):
+        if mname in fcn.methods:
+            hooks[fcn.methods[mname].key] = mk(mname, nc)
     for mname, ncomp in AGG.items():
         fn = cls.methods.get(mname)
         if fn is None:
             raise AnalysisError("anchor vanished: CombineFCN.%s" % mname)
-        loops = [n for n in walk_local(fn.node) if isinstance(n, ast.For)]
-        ok_iter = ok_call = False
-        lists = {}
-        for lp in loops:
-            if norm_text(lp.iter) == "self.fcns":
-                ok_iter = True
-                var = lp.target.id if isinstance(lp.target, ast.Name) else None
-                for n in ast.walk(lp):
-                    if isinstance(n, ast.Call) and isinstance(n.func, ast.Attribute) and isinstance(n.func.value, ast.Name) and n.func.value.id == var and n.func.attr == mname:
-                        ok_call = True
-                # component -> accumulator list
-                for st in ast.walk(lp):
-                    if isinstance(st, ast.Call) and isinstance(st.func, ast.Attribute) and st.func.attr == "append" and isinstance(st.func.value, ast.Name):
-                        lists[st.func.value.id] = norm_text(st.args[0])
-        rets = [n for n in walk_local(fn.node) if isinstance(n, ast.Return) and n.value is not None]
-        comps = list(rets[-1].value.elts) if rets and isinstance(rets[-1].value, ast.Tuple) else ([rets[-1].value] if rets else [])
-        summed = []
-        for c in comps:
-            nm = None
-            if isinstance(c, ast.Call) and c.args:
-                f0 = norm_text(c.func)
-                if f0 in ("sum", "tf.reduce_sum", "np.sum") and isinstance(c.args[0], ast.Name):
-                    nm = c.args[0].id
-            summed.append(nm)
-        ok_sum = len(comps) == ncomp and all(s in lists for s in summed) and len(set(summed)) == ncomp
-        no_break = not any(isinstance(n, (ast.Break, ast.Continue)) for lp in loops for n in ast.walk(lp))
-        ok = ok_iter and ok_call and ok_sum and no_break
-        chk.instance("B-agg", "CombineFCN.%s: iter=self.fcns:%s same-method:%s components=%d summed=%s no-break:%s" % (mname, ok_iter, ok_call, len(comps), summed, no_break))
+        tr = Translator(repo, hooks=hooks, max_depth=4)
+        so = SelfObj(cls, {"fcns": [SelfObj(fcn, {"_k": k}) for k in range(3)]})
+        args = [sp.Symbol("x"), sp.Symbol("p"), sp.Symbol("batch")][: len(fn.params) - 1]
+        try:
+            out = tr.call_fn(fn, args, self_obj=so)
+        except Unmodelled as e:
+            raise AnalysisError("CombineFCN.%s is not interpretable on abstract parts: %s" % (mname, e))
+        comps = list(out) if isinstance(out, (tuple, list)) else [out]
+        want = [sum(sp.Symbol("%s_part%d_c%d" % (mname, k, c)) for k in range(3)) for c in range(ncomp)]
+        ok = len(comps) == ncomp and all(sp.expand(sp.sympify(a) - b) == 0 for a, b in zip(comps, want))
+        chk.instance("B-agg", "CombineFCN.%s on three abstract parts returns %s: sum of the parts' %s, component by component: %s" % (mname, [str(c) for c in comps] if ncomp == 1 else "%d components" % len(comps), mname, ok))
         if not ok:
             chk.violation(
                 "B-agg", fn.key, "aggregate",
-                "the simultaneous-fit aggregate must loop over the whole of self.fcns (got iter ok=%s), call `.%s` on each part (%s) and sum all %d components (returned %s, accumulators %s)"
-                % (ok_iter, mname, ok_call, ncomp, [norm_text(c) for c in comps], sorted(lists)),
+                "the simultaneous-fit aggregate must return, for each of its %d component(s), the sum over all parts of the parts' `%s`; on three abstract parts it returns %s" % (ncomp, mname, [str(c) for c in comps]),
                 file="tf_pwa/model/model.py", line=fn.lineno,
             )
     # value-returning entry points add the constraint term (shared with C07)
